@@ -38,6 +38,13 @@ H = {
              "full-width root comparison), message hash Q = FF..FF (coefficients 255, checksum chains run 255 steps)",
         bounds="all lms_siglen-byte strings, all I/T1, msg 3 symbolic bytes; chain lengths fixed by Q = FF..FF",
         quick=(), thorough=ALL, cap=(0, 1500), weight=190),
+    "verif_lms_ots_verify_ref_cff": dict(
+        fn=["PublicKey::ots_verify", "coef", "checksum"],
+        desc="ots_verify(q, sig, msg) == RFC 8554 Algorithm 4b for ALL LM-OTS signature strings of length ots_siglen "
+             "and any q: u32 (None iff type word wrong; C / y[i] offsets, chain start j = a_i and end, Kc); lengths "
+             "ots_siglen+-1 and 3 rejected; message hash Q = FF..FF",
+        bounds="all ots_siglen-byte strings, all I/q, msg 3 symbolic bytes; chain lengths fixed by Q = FF..FF",
+        quick=("s256m24",), thorough=ALL, cap=(400, 1500), weight=170),
     "verif_lms_verify_layer": dict(
         fn=["PublicKey::verify"],
         desc="the LMS layer of verify == RFC 8554 Algorithm 6/6a for ALL signature strings of length lms_siglen: q "
@@ -52,14 +59,14 @@ H = {
              "any q: u32, any I/SEED/C, exactly one RNG draw of n bytes; message hash Q = 00..00 "
              "(coefficients 0, checksum chains run 31 and 224 steps)",
         bounds="all I/SEED/q/C, msg 3 symbolic bytes; chain lengths fixed by Q = 00..00",
-        quick=("shakem24",), thorough=ALL, cap=(280, 1500), weight=150),
+        quick=("shakem24",), thorough=ALL, cap=(360, 1500), weight=150),
     "verif_lms_sign_path_q8": dict(
         fn=["PrivateKey::sign"],
         desc="for leaves 0,1,2,10,21,29,30,31 and an arbitrary tree: q word == old index, current_leaf == old+1 already "
              "when the RNG is first called, I/SEED/T unchanged, embedded LM-OTS signature == ots_sign(old,msg), "
              "type word, path[i] == T[((2^h+q)>>i)^1] for i < h (RFC 8554 5.4.1)",
         bounds="8 concrete leaves, tree/I/SEED/randomness symbolic, msg 2 symbolic bytes; ots_sign replaced by stand-in",
-        quick=ALL, thorough=(), cap=(240, 900), weight=100),
+        quick=ALL, thorough=(), cap=(300, 900), weight=100),
     "verif_lms_sign_path_all": dict(
         fn=["PrivateKey::sign"],
         desc="same as sign_path_q8 for every leaf 0..2^h-1",
